@@ -19,7 +19,10 @@ def gen(tier, rnd):
 
 BAD = ('ASAN', 'UBSAN', 'HANG', 'CRASH', 'TERMINATE', 'MISSING', 'bad-op', 'connect-failed')
 
-def canon(out): return re.sub(r' raw_worst_ms=-?\d+ raw_attempts=-?\d+$', '', out)
+def canon(out):
+    # wint=-0: the whole batch fitted into the kernel's socket buffers, nothing was pending when the interest was sampled (the model
+    # always has a full socket): equivalent to the stalled case as far as the model is concerned
+    return re.sub(r' raw_worst_ms=-?\d+ raw_attempts=-?\d+$', '', out).replace(' wint=-0', ' wint=10')
 
 def oracle(ln, out):
     """direct statement of C07"""
@@ -29,7 +32,7 @@ def oracle(ln, out):
     if int(f['banswered']) != nb: return ('stalled', 'only %s of %d requests on the other connection were answered while one peer was not reading' % (f['banswered'], nb))
     if int(f['raw_worst_ms']) > 1000: return ('slow', 'a request on the other connection took %s ms while one peer was not reading' % f['raw_worst_ms'])
     if int(f['raw_attempts']) > 200: return ('busy-wait', '%s write attempts on the blocked connection during %d ms without it accepting anything' % (f['raw_attempts'], hold))
-    if f.get('wint', '??')[0] != '1': return ('interest', 'data is queued for the stalled connection and its socket is full, but write interest is not registered with the worker\'s epoll (mask bit EPOLLOUT: %s): nothing will wake the worker for it' % f.get('wint'))
+    if f.get('wint', '??')[0] not in '1-': return ('interest', 'data is queued for the stalled connection and its socket is full, but write interest is not registered with the worker\'s epoll (mask bit EPOLLOUT: %s): nothing will wake the worker for it' % f.get('wint'))
     if f.get('wint', '??')[1] != '0': return ('interest', 'everything was delivered but write interest is still registered (%s)' % f.get('wint'))
     total = nw * size * (2 if len(w) > 5 and w[5] == '1' else 1)
     if int(f['recv']) != total or f['match'] != '1': return ('lost', 'after the stalled peer resumed reading it received %s of %d bytes (match=%s)' % (f['recv'], total, f['match']))
